@@ -59,6 +59,7 @@ pub fn run_case(line: &str) -> String {
         peer.write(&AMQP_HEADER).await;
         let mut conn: Option<ConnectionHandle<()>> = None;
         let mut close_task: Option<JoinHandle<(ConnectionHandle<()>, String)>> = None;
+        let mut begin_tasks: Vec<JoinHandle<ConnectionHandle<()>>> = Vec::new();
         let mut advertised = String::from("?");
         let mut out = String::new();
         let mut eof_reported = false;
@@ -75,6 +76,15 @@ pub fn run_case(line: &str) -> String {
                 }
                 "pc" => {
                     peer.write(&frame_bytes(0, &peer_close(false), &[])).await;
+                }
+                "begin" => {
+                    // outgoing traffic of the application: a begin (never answered by the peer); the handle stays with the task
+                    if let Some(mut h) = conn.take() {
+                        begin_tasks.push(tokio::spawn(async move {
+                            let _ = fe2o3_amqp::Session::begin(&mut h).await;
+                            h
+                        }));
+                    }
                 }
                 "close" | "closee" => {
                     if let Some(mut h) = conn.take() {
@@ -136,6 +146,19 @@ pub fn run_case(line: &str) -> String {
         }
         if close_task.is_some() {
             fin.push("close=PENDING".into());
+        }
+        // a begin() that has returned (the connection stopped under it) gives the handle back
+        if conn.is_none() {
+            for t in begin_tasks.drain(..) {
+                if t.is_finished() {
+                    if let Ok(h) = t.await {
+                        conn = Some(h);
+                    }
+                } else {
+                    fin.push("running".to_string());
+                    t.abort();
+                }
+            }
         }
         if let Some(mut h) = conn {
             if h.is_closed() {
@@ -303,6 +326,16 @@ pub fn gen_case(r: &mut Rng, thorough: bool) -> String {
     // the step after the open is 4 mod 8 long
     evs.push(format!("po {} {}", rm, pick_dt(r) + 4));
     let n = r.range(1, if thorough { 14 } else { 8 });
+    if r.below(5) == 0 {
+        // outgoing traffic of the application in the middle of the heart-beat schedule: one begin (never answered) at some
+        // point, otherwise only waiting and empty frames from the peer (the handle stays with the begin() call)
+        let at = r.below(n);
+        for i in 0..n {
+            let e = if i == at { "begin" } else if r.below(3) == 0 { "pz" } else { "w" };
+            evs.push(format!("{} {}", e, pick_dt(r)));
+        }
+        return format!("c17 L {} | {}", l, evs.join(" ; "));
+    }
     for _ in 0..n {
         let e = match r.below(12) {
             0..=4 => "w",
